@@ -17,6 +17,7 @@ import (
 	"fmt"
 	"hash"
 	"hash/fnv"
+	"math/rand"
 	"os"
 	"path/filepath"
 	"regexp"
@@ -71,6 +72,9 @@ func (r revHash) Sum(b []byte) []byte {
 var hostLittle = binary.NativeEndian.Uint16([]byte{1, 0}) == 1
 var srcOrder string // "LittleEndian" | "BigEndian" | "NativeEndian", read from the source being checked
 
+// readSrcOrder reads the byte order hashFromString names, from either call shape
+// (binary.Read(reader, binary.X, …) or binary.X.UintNN(…)).  Anything else: "Unknown" (treated as a fixed
+// order, i.e. the code is run unchanged for both CPU orders) — never a crash.
 func readSrcOrder() string {
 	repo := os.Getenv("VERIF_REPO")
 	if repo == "" {
@@ -78,13 +82,30 @@ func readSrcOrder() string {
 	}
 	b, err := os.ReadFile(filepath.Join(repo, "felix/bpf/consistenthash/consistenthash.go"))
 	if err != nil {
-		panic(err)
+		return "Unknown"
 	}
-	m := regexp.MustCompile(`binary\.Read\(\s*reader\s*,\s*binary\.(\w+)\s*,`).FindAllSubmatch(b, -1)
-	if len(m) != 1 {
-		panic("cannot find the byte order used by hashFromString")
+	i := strings.Index(string(b), "func hashFromString(")
+	if i < 0 {
+		return "Unknown"
 	}
-	return string(m[0][1])
+	body := string(b[i:])
+	if j := strings.Index(body[1:], "\nfunc "); j > 0 {
+		body = body[:j+1]
+	}
+	seen := map[string]bool{}
+	for _, m := range regexp.MustCompile(`binary\.Read\(\s*\w+\s*,\s*binary\.(\w+)\s*,`).FindAllStringSubmatch(body, -1) {
+		seen[m[1]] = true
+	}
+	for _, m := range regexp.MustCompile(`binary\.(\w+Endian)\.Uint(?:16|32|64)\(`).FindAllStringSubmatch(body, -1) {
+		seen[m[1]] = true
+	}
+	if len(seen) != 1 {
+		return "Unknown"
+	}
+	for k := range seen {
+		return k
+	}
+	return "Unknown"
 }
 
 func newHash(kind string, cpu string) hash.Hash {
@@ -201,6 +222,7 @@ func exec(h *rt.H, op string) string {
 			names = append(names, unhex(x))
 		}
 		tbl, isNil, panicked := realTable(cpu, hk, m, names)
+		oracleOrder(h, op, cpu, hk, m, names, tbl, isNil, panicked)
 		if panicked {
 			if isPrime(m) {
 				h.OracleFail("panic-prime-size", "Generate/AddBackend panicked for a prime table size", map[string]any{"op": op})
@@ -294,7 +316,54 @@ func exec(h *rt.H, op string) string {
 	panic("unknown op " + op)
 }
 
-// oracleTable: complete, balanced, independent of arrival order and of the CPU byte order.
+// oracleOrder — evaluated for EVERY lut op, whatever the size and outcome: the same backend SET learned in
+// another ORDER (and with repeats, as after add/remove/re-add histories — the syncer builds a fresh
+// ConsistentHash per sync, there is no remove) on a FRESH ConsistentHash gives the identical result:
+// the same table, or nil, or the same panic.
+func oracleOrder(h *rt.H, op, cpu, hk string, m int, names []string, tbl []string, isNil, panicked bool) {
+	if len(names) < 2 {
+		return
+	}
+	var alts [][]string
+	rev := make([]string, len(names))
+	for i, n := range names {
+		rev[len(names)-1-i] = n
+	}
+	alts = append(alts, rev)
+	k := len(names) / 2
+	// a history: second half learned first, then the first half, then everything again (re-adds)
+	alts = append(alts, append(append(append([]string{}, names[k:]...), names[:k]...), names...))
+	srt := append([]string{}, names...)
+	sort.Strings(srt)
+	alts = append(alts, srt)
+	// a random permutation, from a PRNG keyed by the op (deterministic, independent of the generator stream)
+	sh := append([]string{}, names...)
+	r := rand.New(rand.NewSource(int64(len(op))*7919 + int64(m)))
+	r.Shuffle(len(sh), func(i, j int) { sh[i], sh[j] = sh[j], sh[i] })
+	alts = append(alts, sh)
+	for _, a := range alts {
+		t2, n2, p2 := realTable(cpu, hk, m, a)
+		if p2 != panicked || n2 != isNil || !eqTbl(t2, tbl) {
+			h.Count("lut:order-dependent")
+			h.OracleFail("order-dependent", "the same backend set learned in another order on a fresh ConsistentHash gives another table",
+				map[string]any{"op": op, "other_order": hexAll(a), "table": clip(canonOrNil(tbl, isNil, panicked)), "other_table": clip(canonOrNil(t2, n2, p2))})
+			return
+		}
+	}
+	h.Count("lut:order-checked")
+}
+
+func canonOrNil(t []string, isNil, panicked bool) string {
+	switch {
+	case panicked:
+		return "panic"
+	case isNil:
+		return "nil"
+	}
+	return canon(t)
+}
+
+// oracleTable: complete, balanced, independent of the CPU byte order (prime sizes).
 func oracleTable(h *rt.H, op, cpu, hk string, m int, names []string, tbl []string) {
 	in := map[string]any{"op": op}
 	cnt := map[string]int{}
@@ -332,26 +401,6 @@ func oracleTable(h *rt.H, op, cpu, hk string, m int, names []string, tbl []strin
 		h.OracleFail("lut-unbalanced", fmt.Sprintf("backend shares differ by more than one slot (min %d max %d)", lo, hi), in)
 	}
 	h.Count(fmt.Sprintf("lut:spread%d", hi-lo))
-	// order independence: reversed, rotated-with-duplicates and sorted arrival orders, fresh instances
-	var alts [][]string
-	rev := make([]string, len(names))
-	for i, n := range names {
-		rev[len(names)-1-i] = n
-	}
-	alts = append(alts, rev)
-	k := len(names) / 2
-	rot := append(append(append([]string{}, names[k:]...), names[:k]...), names...)
-	alts = append(alts, rot)
-	srt := append([]string{}, names...)
-	sort.Strings(srt)
-	alts = append(alts, srt)
-	for _, a := range alts {
-		t2, _, p2 := realTable(cpu, hk, m, a)
-		if p2 || !eqTbl(t2, tbl) {
-			h.OracleFail("lut-order-dependent", "same backend set learned in another order gives another table", map[string]any{"op": op, "other_order": hexAll(a)})
-			break
-		}
-	}
 	// CPU byte-order independence
 	other := "be"
 	if cpu == "be" {
